@@ -1,2 +1,6 @@
 def driver_binding(c, runs):
     c.assumptions.append("driver binding (apply_outputs / Sleep deadlines) not built yet")
+
+
+def deferral_glue(c):
+    c.assumptions.append("driver glue (process_restarting_outputs) binding not built yet")
